@@ -2,6 +2,8 @@
 import json, os
 from .. import facts, intervals, fdai, sym
 from ..report import VERIF
+from ..fdai import EnumV, AggV, K, SymV, RefV, Cell, TOP
+from .. import scpi_models as M
 
 LEVEL = "proof"
 TECHNIQUE = "exhaustive interval abstract interpretation of ErrorCode::esr_mask over all 65536 error numbers (bisection-refined decision table) + table extraction from the derive-generated get_code/get_error/get_message bodies compared with the SCPI-99 error list + constructed-ErrorCode census per module"
@@ -230,5 +232,75 @@ def run(R, tier):
             masks = {expected_mask(o, code_of[c]) if c in code_of and code_of[c] is not None else None for c in codes}
             R.check(masks == {0x10}, "R14.5", "numeric-%s:%s" % (vn.lower(), ty), "parser %s -> %s (execution error class)" % (vn, sorted(codes)), "a literal that is out of range for %s (%s) is reported as %s, which is not in the execution-error class" % (ty, vn, sorted(codes)), where=b.span)
     R.floor("R14.5", "numeric conversions", n_conv, 12)
+    # ---- R14.6 an exhausted response buffer is an execution error (-2xx), whichever write hits the limit -------------------
+    # The fixed-capacity formatter's fallible methods are interpreted with the container's documented contract
+    # (try_push / try_extend_from_slice fail when the data does not fit); every error they can return - directly, through
+    # a sibling method or through a From conversion of the container's error - must lie in the execution-error class.
+    from . import c12 as Q
+    ms = Q.container_models()
+
+    def m_try_extend(eng_, st, fr, t, name, rname, args):
+        # fits / does not fit, decided by the analysis state
+        if st.extra.get("fits"):
+            return fdai.mk_ok(fdai.UNIT)
+        return fdai.mk_err(AggV("arrayvec::CapacityError", {0: fdai.UNIT}))
+
+    def m_try_push(eng_, st, fr, t, name, rname, args):
+        if st.extra.get("fits"):
+            return fdai.mk_ok(fdai.UNIT)
+        return fdai.mk_err(AggV("arrayvec::CapacityError", {0: args[1]}))
+
+    def m_flag(v):
+        def m(eng_, st, fr, t, name, rname, args):
+            return K(v(st))
+        return m
+    ms.update({"arrayvec::ArrayVec::try_extend_from_slice": m_try_extend, "arrayvec::ArrayVec::try_push": m_try_push,
+               "arrayvec::ArrayVec::is_empty": m_flag(lambda st: False), "arrayvec::ArrayVec::is_full": m_flag(lambda st: not st.extra.get("fits")),
+               "arrayvec::ArrayVec::remaining_capacity": m_flag(lambda st: 1 if st.extra.get("fits") else 0)})
+    feng = fdai.Engine(P, u, inline=lambda n, r: r.startswith(("scpi::error::", "<scpi::error::", "<error::", "scpi::parser::response::")) or ("parser::response::Formatter" in r and "ArrayVec" in r), models=ms, loop_limit=16, max_paths=64)
+    n_f = 0
+    n_err_total = 0
+    for fb in u.bodies:
+        if "parser::response::Formatter" not in (fb.impl_trait or "") or "ArrayVec" not in (fb.impl_self or "") or not str(fb.mir.locals[0].get("ty", "")).startswith("core::result::Result<"):
+            continue
+        n_f += 1
+        bad = []
+        n_err = 0
+        for fits in (False, True):
+            st0 = fdai.State()
+            st0.extra["fits"] = fits
+            try:
+                rs = feng.run(fb, [RefV(Cell(TOP, "buf"), (), True)] + [SymV("arg%d" % i, "arg") for i in range(max(0, fb.mir.arg_count - 1))], st0)
+            except (fdai.TooManyPaths, RecursionError) as e:
+                bad.append("undecided (%s)" % type(e).__name__)
+                continue
+            for r in rs:
+                if r.outcome != "return" or not (isinstance(r.retval, EnumV) and r.retval.name == "Err"):
+                    continue
+                n_err += 1
+                codes = M.err_codes(r.retval)
+                if not codes or any(c not in code_of or code_of[c] is None or expected_mask(o, code_of[c]) != 0x10 for c in codes):
+                    bad.append("when the data does not fit the method fails with %s" % (sorted(codes) or M.outcome(r)))
+        n_err_total += n_err
+        R.check(not bad, "R14.6", "ArrayVec::" + fb.name, "every failure is an execution-class error (%d failing paths)" % n_err, "; ".join(sorted(set(bad))[:3]), where=fb.span)
+    R.floor("R14.6", "fallible methods of the fixed-capacity formatter", n_f, 4)
+    R.floor("R14.6", "failing paths of the fixed-capacity formatter", n_err_total, 4)
+    # ---- R14.7 channel specs: a malformed spec is a command error, a well-formed number the target cannot hold a value fault --
+    from . import chanspec as CS
+    tab = CS.table()
+    per = {}
+    for (ty, txt), (got, ref, cb) in sorted(tab.items(), key=lambda kv: (kv[0][0], kv[0][1])):
+        if ref[0] != "Err":
+            continue
+        want = 0x20 if ref[1] == "syntax" else 0x10
+        d = per.setdefault(ty, {"n": 0, "bad": [], "body": cb})
+        d["n"] += 1
+        if got[0] != "Err" or not got[1]:
+            d["bad"].append("%r: %s, expected %s error" % (txt, got, "a command" if want == 0x20 else "an execution"))
+        elif any(c not in code_of or code_of[c] is None or expected_mask(o, code_of[c]) != want for c in got[1]):
+            d["bad"].append("%r (%s) fails with %s, which is not in the %s class" % (txt, "wrong number of dimensions" if ref[1] == "syntax" else "a number the type cannot hold", sorted(got[1]), "command-error" if want == 0x20 else "execution-error"))
+    for ty, d in sorted(per.items()):
+        R.check(not d["bad"], "R14.7", "channel-spec:%s" % ty, "wrong dimension count -> command error, unrepresentable number -> execution error (%d refused specs)" % d["n"], "; ".join(d["bad"][:3]), where=d["body"].span)
+    R.floor("R14.7", "ChannelSpec conversions", len(per), 6)
     R.trust("SCPI-99 error list as transcribed in oracle/errors.json")
     R.assume("user handlers may return any Error; only errors constructed by the library are classified (R14.5)")
